@@ -1,14 +1,73 @@
-//! Operations for C17 (see ops.rs). Fill in: return Some(outcome) for the ops this module owns.
+//! Operations for C17: with / from_partial / new_with_overflow of PlainDate, PlainTime, PlainDateTime,
+//! PlainYearMonth and the date/time part of ZonedDateTime partials (ISO calendar).
+//!
+//! A partial record is a JSON object holding only the supplied fields:
+//! year, month, monthCode, day, hour, minute, second, millisecond, microsecond, nanosecond.
 use crate::js::{self, big, int};
 use crate::ops::{utc, FS};
 use crate::proj::*;
 use serde_json::{json, Value};
+use std::str::FromStr;
 use temporal_rs::options::*;
+use temporal_rs::partial::*;
 use temporal_rs::*;
 
+fn o_u8(p: &Value, k: &str) -> Option<u8> { p.get(k).and_then(|v| v.as_i64()).map(|v| u8::try_from(v).unwrap_or_else(|_| panic!("{} not u8: {}", k, v))) }
+fn o_u16(p: &Value, k: &str) -> Option<u16> { p.get(k).and_then(|v| v.as_i64()).map(|v| u16::try_from(v).unwrap_or_else(|_| panic!("{} not u16: {}", k, v))) }
+fn o_i32(p: &Value, k: &str) -> Option<i32> { p.get(k).and_then(|v| v.as_i64()).map(|v| i32::try_from(v).unwrap_or_else(|_| panic!("{} not i32: {}", k, v))) }
+
+/// the date fields of a partial record; a month code that is not even syntactically a month code is the caller's error
+pub fn partial_date(p: &Value) -> TemporalResult<PartialDate> {
+    let mc = match p.get("monthCode").and_then(|v| v.as_str()) { Some(s) => Some(MonthCode::from_str(s)?), None => None };
+    Ok(PartialDate::new().with_year(o_i32(p, "year")).with_month(o_u8(p, "month")).with_month_code(mc).with_day(o_u8(p, "day")))
+}
+pub fn partial_time(p: &Value) -> PartialTime {
+    PartialTime::new().with_hour(o_u8(p, "hour")).with_minute(o_u8(p, "minute")).with_second(o_u8(p, "second"))
+        .with_millisecond(o_u16(p, "millisecond")).with_microsecond(o_u16(p, "microsecond")).with_nanosecond(o_u16(p, "nanosecond"))
+}
+pub fn partial_datetime(p: &Value) -> TemporalResult<PartialDateTime> {
+    Ok(PartialDateTime::new().with_partial_date(partial_date(p)?).with_partial_time(partial_time(p)))
+}
+fn ovf_req(a: &Value) -> ArithmeticOverflow { arg_ovf(a).unwrap_or(ArithmeticOverflow::Constrain) }
+
+/// year-month receiver {y, m[, rd]} (rd = explicit reference day)
+pub fn arg_ym(v: &Value) -> TemporalResult<PlainYearMonth> {
+    PlainYearMonth::new_with_overflow(js::i(v, "y") as i32, js::i(v, "m") as u8, v.get("rd").and_then(|x| x.as_i64()).map(|x| x as u8), iso(), ArithmeticOverflow::Reject)
+}
+/// the hidden reference day is only observable through the string with the calendar annotation forced
+pub fn ym_ref_day(ym: &PlainYearMonth) -> i64 {
+    let s = ym.to_ixdtf_string(DisplayCalendar::Always);
+    let head = s.split('[').next().unwrap_or("");
+    let parts: Vec<&str> = head.rsplitn(2, '-').collect();
+    parts.first().and_then(|d| d.parse::<i64>().ok()).unwrap_or(-1)
+}
+pub fn p_ym(ym: &PlainYearMonth) -> Value {
+    json!({"y": int(ym.year() as i64), "m": int(ym.month() as i64), "rd": int(ym_ref_day(ym))})
+}
+
 pub fn exec(op: &str, a: &Value) -> Option<Value> {
-    let _ = a;
-    match op {
-        _ => None,
-    }
+    Some(match op {
+        "PlainDate.with" => run(|| arg_date(&a["recv"])?.with(partial_date(&a["p"])?, arg_ovf(a)), p_date),
+        "PlainDate.from_partial" => run(|| PlainDate::from_partial(partial_date(&a["p"])?, arg_ovf(a)), p_date),
+        "PlainDate.new_with_overflow" => run(|| PlainDate::new_with_overflow(js::i(a, "y") as i32, js::i(a, "m") as u8, js::i(a, "d") as u8, iso(), ovf_req(a)), p_date),
+        "PlainTime.with" => run(|| arg_time(&a["recv"])?.with(partial_time(&a["p"]), arg_ovf(a)), p_time),
+        "PlainTime.from_partial" => run(|| PlainTime::from_partial(partial_time(&a["p"]), arg_ovf(a)), p_time),
+        "PlainTime.new_with_overflow" => run(|| PlainTime::new_with_overflow(js::i(a, "h") as u8, js::i(a, "mi") as u8, js::i(a, "s") as u8,
+            js::i(a, "ms") as u16, js::i(a, "us") as u16, js::i(a, "ns") as u16, ovf_req(a)), p_time),
+        "PlainDateTime.with" => run(|| arg_datetime(&a["recv"])?.with(partial_datetime(&a["p"])?, arg_ovf(a)), p_datetime),
+        "PlainDateTime.from_partial" => run(|| PlainDateTime::from_partial(partial_datetime(&a["p"])?, arg_ovf(a)), p_datetime),
+        "PlainDateTime.new_with_overflow" => run(|| PlainDateTime::new_with_overflow(js::i(a, "y") as i32, js::i(a, "m") as u8, js::i(a, "d") as u8,
+            js::i(a, "h") as u8, js::i(a, "mi") as u8, js::i(a, "s") as u8, js::i(a, "ms") as u16, js::i(a, "us") as u16, js::i(a, "ns") as u16, iso(), ovf_req(a)), p_datetime),
+        "PlainYearMonth.with" => run(|| arg_ym(&a["recv"])?.with(partial_date(&a["p"])?, arg_ovf(a)), p_ym),
+        "PlainYearMonth.from_partial" => run(|| PlainYearMonth::from_partial(partial_date(&a["p"])?, ovf_req(a)), p_ym),
+        // date/time part of a ZonedDateTime partial in a fixed-offset zone: the local fields the zone reports back and the instant
+        "ZonedDateTime.from_partial" => run(|| FS.with(|pr| {
+            let tz = TimeZone::try_from_str(js::s(a, "tz"))?;
+            let p = PartialZonedDateTime::new().with_date(partial_date(&a["p"])?).with_time(partial_time(&a["p"])).with_timezone(Some(tz));
+            let z = ZonedDateTime::from_partial_with_provider(p, arg_ovf(a), None, None, pr)?;
+            let dt = z.to_plain_datetime_with_provider(pr)?;
+            Ok((z, dt))
+        }), |(z, dt)| { let mut v = p_datetime(dt); v["ens"] = big(z.epoch_nanoseconds().as_i128()); v }),
+        _ => return None,
+    })
 }
